@@ -22,9 +22,11 @@ func init() {
 			func(tier string) []string {
 				cls := "[0-9A-Za-z.+~]"
 				out := []string{"{d}" + rep(cls, 1), "{d}" + rep(cls, 2), "{d}" + rep(cls, 3), "{d}:{d}" + rep(cls, 2), "{d}" + rep(cls, 1) + "-" + rep(cls, 1), "{d}" + rep("[0-9a-z.+~\\-]", 2) + "-{d}", "{d}.{d}-{d}", "{d}.{d}-0", "{d}.{d}",
-					"{d}" + rep("d", 20), rep("d", 20), "0" + rep("d", 3), "{d}~~{d}", "{d}.{d}~", "{d}{l}", "{d}{l}0"}
+					"{d}" + rep("d", 20), rep("d", 20), "0" + rep("d", 3), "{d}~~{d}", "{d}.{d}~", "{d}{l}", "{d}{l}0",
+					// epochs: two digits, leading zeros, and absent against explicit zero
+					"{d}{d}:{d}.{d}", "0{d}{d}:{d}.{d}", "0:{d}.{d}"}
 				if tier == "thorough" {
-					out = append(out, "{d}"+rep(cls, 4), "{d}"+rep(cls, 2)+"-"+rep(cls, 2), "{d}"+rep("d", 21), "{d}{d}:{d}"+rep(cls, 2))
+					out = append(out, "{d}"+rep(cls, 4), "{d}"+rep(cls, 2)+"-"+rep(cls, 2), "{d}"+rep("d", 21), "{d}{d}:{d}"+rep(cls, 2), "00{d}:{d}", "{d}{d}{d}{d}{d}{d}{d}{d}{d}:{d}")
 				}
 				return out
 			}},
